@@ -139,10 +139,12 @@ func initTopicMe(t *Topic, sreg *ClientComMessage) error {
 	if err != nil {
 		// Log out the session
 		sreg.sess.uid = types.ZeroUid
+		sreg.sess.authLvl = auth.LevelNone
 		return err
 	} else if user == nil {
 		// Log out the session
 		sreg.sess.uid = types.ZeroUid
+		sreg.sess.authLvl = auth.LevelNone
 		return types.ErrUserNotFound
 	}
 
@@ -196,6 +198,7 @@ func initTopicFnd(t *Topic, sreg *ClientComMessage) error {
 	} else if user == nil {
 		if !sreg.sess.isMultiplex() {
 			sreg.sess.uid = types.ZeroUid
+			sreg.sess.authLvl = auth.LevelNone
 		}
 		return types.ErrNotFound
 	}
